@@ -14,6 +14,7 @@ B3  (a) every message the real encoder framed (arbitrary lengths through _encode
 from __future__ import annotations
 
 import contextlib
+import copy
 import json
 import random
 
@@ -54,6 +55,48 @@ def frames_of_packets(fmt: str, packets) -> tuple[list[list[int]], int]:
             ident = int(parts[0], 16)
             frames.append([int(x, 16) for x in parts[1:]])
     return frames, ident
+
+
+def client_sends(kind: str, nbefore: int, rng: random.Random):
+    """[((previous counter, frames), payload)] of the fast-packet messages a client wrote: `nbefore` messages, the link ends,
+    the client reconnects, two more messages, the link ends again, one more"""
+    from nmea2000.encoder import NMEA2000Encoder
+    from .. import clientfaults as cf
+    from .. import clientrun as cr
+    from .. import vloop
+    msg = next(m for m, _, _ in cr.history_messages(rng) if m.PGN == 129029)
+    sess = vloop.Session(cf.Plan())
+
+    def scenario(s):
+        s.user("connect", s.client.connect)
+        t = 8.0                      # (after the serial client's own seeding requests)
+        for _ in range(nbefore):
+            s.at_time(t, lambda: s.user("send", lambda: s.client.send(copy.deepcopy(msg))))
+            t += 0.2
+        s.at_time(t + 1.0, lambda: s.eof(max(s.readers)))
+        for dt in (9.0, 9.2):
+            s.at_time(t + dt, lambda: s.user("send", lambda: s.client.send(copy.deepcopy(msg))))
+        s.at_time(t + 11.0, lambda: s.eof(max(s.readers)))
+        s.at_time(t + 20.0, lambda: s.user("send", lambda: s.client.send(copy.deepcopy(msg))))
+    sess.run(vloop.make_client_factory(kind), scenario, until=45.0)
+    want = payload_of_actisense(NMEA2000Encoder().encode_actisense(msg))
+    fmt = {"ebyte": "ebyte", "yd": "yd", "waveshare": "usb"}[kind]
+    out, cur, prevq = [], [], -1
+    for c in sorted(sess.wire):
+        for w in sess.wire[c]:
+            if kind == "waveshare" and len(w) == 20 and w[2] == 0x02:
+                continue                     # the serial configuration packet of this connection
+            fr, ident = frames_of_packets(fmt, [w])
+            if ((ident >> 8) & 0x3FFFF) >> 0 not in (129029,) and ((ident >> 8) & 0x1FFFF) != 129029:
+                continue                     # the client's own single-frame requests
+            f = fr[0]
+            if f and (f[0] & 31) == 0 and cur:
+                out.append(((prevq, cur), want))
+                prevq, cur = cur[0][0] >> 5, []
+            cur.append(f)
+    if cur:
+        out.append(((prevq, cur), want))
+    return out
 
 
 def bind(chk: Check, tier: str, seed: int):
@@ -165,6 +208,18 @@ def bind(chk: Check, tier: str, seed: int):
         traces.append(tr)
         labels.append(lab)
     chk.gate(n_pub >= (10 if tier == "selftest" else 100), f"only {n_pub} definitions went through the public encoders")
+
+    # (4) through a gateway client's send(): consecutive fast-packet messages of one sender, with the link lost and re-established
+    # between them (the bus does not know about the sender's TCP link: the counter still has to differ from the previous message's)
+    n_client = 0
+    for kind in ("ebyte", "yd", "waveshare") if tier != "selftest" else ("ebyte",):
+        for nbefore in (1, 2, 8):
+            for frames, want in client_sends(kind, nbefore, rng):
+                n_client += 1
+                send_recs.append({"payload": list(want), "frames": frames[1], "prevq": frames[0]})
+                send_meta.append(f"client-{kind}/send-across-reconnect")
+    chk.gate(n_client >= 3, f"only {n_client} fast-packet messages were written by clients")
+    chk.add(messages_sent_through_clients=n_client)
 
     # --- B2: table emitted by TLC vs the real framer (lookup only) --------------------------------
     inp, outp, tab = wd / "send.json", wd / "send-verdicts.json", wd / "table.json"
